@@ -11,7 +11,7 @@ import warnings
 import numpy as np
 import xarray as xr
 
-from .. import builders, env
+from .. import builders, env, sequences
 from ..runner import LibraryRaised, Recorder, lib
 
 PROPERTY = 'C12'
@@ -29,6 +29,7 @@ RULE = (
     "dimension and coordinates gone; everything else identical.  Non-trivial: floors that differ between "
     "columns, two depth coordinates, depth not the first dimension."
     ' Also: every subset of layers holding data per column (8^3 patterns, gaps above data), depth coordinates given as one-shot iterators, two depth coordinates sharing one dimension.'
+    " Datasets also arrive with a history: warmed convention, copy, deep copy, pickle, netCDF round trip, fully chunked (dask), and hand-built conventions for coordinates autodetection would not pick (decoy pair), after warm / pickle. Also (operation sequences, mc/sequences.py): for 8 base datasets and every sequence `first [middle] query` over 36 operations (queries, in-place edits a user makes, transforms whose result is used next; quick length 2, thorough length 3) ending in one of this property's own queries, the answer on the one used object equals the answer on a never-used rebuild. Second phase: the first case of every distinct outcome and kind (thorough: every case, for expensive checks every kind) again with debug logging enabled, under numpy.errstate(all='ignore'), and in python -O child interpreters."
 )
 LEVEL_TEXT = ("all 64 (625) static sea-floor shapes x orientation x order x depth-dimension position x 4 conventions x one/two "
               "depth coordinates x hash seeds, compared with a column scan for the physically deepest valid layer")
@@ -53,7 +54,7 @@ FAMILIES = {
 CHUNK = 16
 
 
-def cases(tier):
+def _cases_first_call(tier):
     out = []
     sizes = [(3, 3)] + ([(4, 4)] if tier == 'thorough' else [])
     for (ncol, nlayer) in sizes:
@@ -78,6 +79,25 @@ def cases(tier):
         for start in range(0, len(patterns), 32):
             out.append({'family': family, 'ncol': 3, 'nlayer': 3, 'positive': positive, 'deep_first': deep_first, 'two': False,
                         'masks': True, 'floors': patterns[start:start + 32]})
+    floors3 = [list(f) for f in itertools.product(range(4), repeat=3)]
+    # auxiliary one-dimensional coordinates along the grid dimensions
+    for family in ('shoc_simple', 'shoc_standard', 'ugrid'):
+        for positive, deep_first in (('up', True), ('down', False)):
+            out.append({'family': family, 'ncol': 3, 'nlayer': 3, 'positive': positive, 'deep_first': deep_first, 'two': False,
+                        'aux': True, 'floors': floors3[1::6] if tier == 'quick' else floors3})
+    # an empty regional subset (a horizontal dimension of length zero)
+    for family in FAMILIES:
+        for positive, deep_first in (('up', True), ('down', False)):
+            out.append({'family': family, 'ncol': 3, 'nlayer': 3, 'positive': positive, 'deep_first': deep_first, 'two': False,
+                        'empty_grid': True, 'floors': [[1, 2, 3], [0, 3, 3]]})
+    # datasets and conventions that have been used, copied, pickled, saved or chunked before
+    histories = [[op] for op in builders.HISTORY_OPS]
+    if tier == 'thorough':
+        histories += [list(h) for h in itertools.product(builders.HISTORY_OPS, repeat=2)]
+    for family in FAMILIES:
+        for n, history in enumerate(histories):
+            out.append({'family': family, 'ncol': 3, 'nlayer': 3, 'positive': ('up', 'down')[n % 2], 'deep_first': bool((n // 2) % 2),
+                        'two': n % 3 == 0, 'history': history, 'floors': floors3[n % 5::5] if tier == 'quick' else floors3})
     # the two-coordinate datasets again, in fresh interpreters with fixed hash seeds
     floors = [list(f) for f in itertools.product(range(4), repeat=3)]
     picked = floors[::7] if tier == 'quick' else floors
@@ -184,6 +204,19 @@ def build_dataset(case, floor):
                     floor_values[t, c] = 90000 + 1000 * t + 100 * (wet2[c] - 1) + c
         ds['salt2'] = (('k2', time_dim) + gdims, values.reshape((n2, nt) + gshape))
         expectations['salt2'] = ((time_dim,) + gdims, xr.DataArray(floor_values.reshape((nt,) + gshape), dims=(time_dim,) + gdims))
+    if case.get('aux'):
+        # one-dimensional auxiliary coordinates along the horizontal dimensions of a grid whose latitude / longitude are
+        # two-dimensional (distances in metres along the model's own axes)
+        for axis, dim in enumerate(tuple(truth.kinds[truth.default_kind]['dims'])):
+            ds = ds.assign_coords({f'metres_{axis}': (dim, 250.0 * np.arange(ds.sizes[dim]))})
+    if case.get('empty_grid'):
+        # an empty regional subset: no cell left along the first horizontal dimension
+        dim = tuple(truth.kinds[truth.default_kind]['dims'])[0]
+        ds = ds.isel({dim: slice(0, 0)})
+        expectations = {name: (dims, want.isel({dim: slice(0, 0)}) if dim in want.dims else want)
+                        for name, (dims, want) in expectations.items()}
+    if case.get('history'):
+        ds = builders.apply_history(ds, truth, case['history'])
     return ds, truth, expectations, depth_name, second, shared
 
 
@@ -217,7 +250,7 @@ def check_result(rec, fp, label, ds, truth, result, expectations, reduced, case)
     rec.check(dict(result.attrs) == dict(ds.attrs), f"{fp}/attrs", f"{label}: global attributes", dict(ds.attrs), dict(result.attrs))
 
 
-def run_case(case):
+def _run_case_first_call(case):
     rec = Recorder()
     if case.get('child') and not os.environ.get('VERIF_C12_CHILD'):
         return run_child(case, rec)
@@ -279,6 +312,23 @@ def run_child(case, rec):
     rec.outcome([case['family'], 'child', case['hashseed']])
     return rec.result()
 
+
+
+from ..runner import coarse_environment_key as environment_key  # noqa: E402  (expensive cases: second phase on one case per kind)
+ENVIRONMENTS_ON_REPRESENTATIVES_ONLY = True
+
+
+def cases(tier):
+    # first calls on freshly built datasets, then operation sequences on one object (mc/sequences.py)
+    return _cases_first_call(tier) + sequences.cases_for(PROPERTY, tier)
+
+
+def run_case(case):
+    if case.get('part') == 'sequence':
+        rec = Recorder()
+        sequences.run_case(PROPERTY, case, rec)
+        return rec.result()
+    return _run_case_first_call(case)
 
 if __name__ == '__main__':
     env.import_emsarray()
